@@ -252,6 +252,21 @@ def releases (sk : Skeleton) (s : State) (c : Nat) : Prop :=
 instance (sk : Skeleton) (s : State) (c : Nat) : Decidable (releases sk s c) := by
   unfold releases; exact inferInstance
 
+/-- no invoking thread is inside the body of one of call `c`'s closures -/
+def noneRunning (s : State) (c : Nat) : Bool :=
+  s.invokes.all fun iv => match s.running iv.thread with
+    | some id => !((s.calls c).closures.contains id)
+    | none => true
+
+/-- The deferred `freeClosure()`s of call `c` can run to their end: the table's mutex is free, and — only if the
+    release function WAITS for running invocations (`clFreeNeverWaits = false`, e.g. a `WaitGroup` "so that the
+    caller's function is never still executing after the closure has been freed") — none of its closures is running. -/
+def canRelease (sk : Skeleton) (s : State) (c : Nat) : Prop :=
+  releases sk s c → s.clLock = none ∧ (sk.clFreeNeverWaits = true ∨ noneRunning s c = true)
+
+instance (sk : Skeleton) (s : State) (c : Nat) : Decidable (canRelease sk s c) := by
+  unfold canRelease; exact inferInstance
+
 /-- `if fatalErr == nil { fatalErr = err }` -/
 def firstOr (o : Option Nat) (e : Nat) : Option Nat :=
   match o with
@@ -371,7 +386,7 @@ def step (sk : Skeleton) (s : State) : Act → Option State
       some { s with calls := upd s.calls c { s.calls c with pc := .panicking eLinkCtx } }
     else none
   | .callRecover c e =>
-    if s.crashed = false ∧ (s.calls c).pc = .panicking e ∧ (releases sk s c → s.clLock = none) then
+    if s.crashed = false ∧ (s.calls c).pc = .panicking e ∧ canRelease sk s c then
       if sk.stubRecovers = true then
         some { s with closures := freeClosures sk s c,
                       calls := upd s.calls c { s.calls c with pc := .returned, outcome := .failed e },
@@ -379,7 +394,7 @@ def step (sk : Skeleton) (s : State) : Act → Option State
       else some { s with crashed := true }       -- the panic leaves the stub: process dies
     else none
   | .callReturnOk c =>
-    if s.crashed = false ∧ (s.calls c).pc = .decoded ∧ (releases sk s c → s.clLock = none) then
+    if s.crashed = false ∧ (s.calls c).pc = .decoded ∧ canRelease sk s c then
       some { s with closures := freeClosures sk s c,
                     calls := upd s.calls c { s.calls c with pc := .returned } }
     else none
